@@ -573,13 +573,16 @@ fn encode_args(
     // handle timeline first argument; this may come from @arg0 or the first standard argument
     let mut extra_arg = instr.explicit_extra_arg;
     match arg_encodings_iter.peek() {
-        Some(&ArgEncoding::Integer { arg0: true, .. }) => {
+        Some(&ArgEncoding::Integer { arg0: true, format, .. }) => {
             arg_encodings_iter.next(); // consume it
             let first_normal_arg = args_iter.next().expect("type checker already checked arity");
 
             if extra_arg.is_none() {
                 assert!(!first_normal_arg.expect_raw().is_reg, "checked above");
-                extra_arg = Some(first_normal_arg.expect_raw().expect_int() as _);
+                extra_arg = Some(match format.signed {
+                    true => fit_int_arg::<i16>(first_normal_arg, emitter)?,
+                    false => fit_int_arg::<u16>(first_normal_arg, emitter)? as i16,
+                });
             } else {
                 // Explicit @arg0, but also drawn from args.
                 // To keep the type checker's job simpler, we took an argument from the argument list anyways,
